@@ -10,6 +10,7 @@ HARNESS = {
     "C01": "c01_c02",
     "C02": "c01_c02",
     "C03": "c03",
+    "C04": "c04",
     "C05": "c05",
     "C06": "c06",
     "C07": "c07_c08",
